@@ -51,7 +51,8 @@ def setup(ctx):
     global _KITS
     _KITS = [kits.MonoidalKit(), kits.RigidKit(), kits.TensorKit(),
              kits.CircuitKit(), kits.ZXKit(), kits.BiclosedKit(),
-             kits.CartesianKit(), kits.MonoidalKit(), kits.RigidKit(zmax=3)]
+             kits.CartesianKit(), kits.MonoidalKit(), kits.RigidKit(zmax=3),
+             kits.WordKit()]
 
 
 def wrap(kit, v):
@@ -269,29 +270,53 @@ def sums_case(rng, ctx, kit, laws, a, b, c, has_dagger):
     laws.eq("empty-sum-absorbs-then", zero >> b, a.sum([], a.dom, b.cod))
     laws.eq("empty-sum-absorbs-then", pre >> zero, a.sum([], pre.dom, a.cod))
     # sums RETURNED by the operations must behave as sums in a second step
-    derived = [("then", total >> b, [a >> b, a2 >> b])]
+    # (also the EMPTY sums they return: equal to the right zero when looked
+    # at, but only a real sum of this class can be composed and tensored on)
+    derived = [("then", total >> b, [a >> b, a2 >> b]),
+               ("then-of-zero", zero >> b, []), ("zero-then", pre >> zero, [])]
     if has_dagger:
         derived.append(("dagger", total[::-1], [a[::-1], a2[::-1]]))
+        derived.append(("dagger-of-zero", zero[::-1], []))
     if len(a.cod) + len(c.cod) <= 6:
         derived.append(("tensor", total @ c, [a @ c, a2 @ c]))
+        derived.append(("tensor-of-zero", zero @ c, []))
     for how, value, terms in derived:
         tail = kit.rand_diagram(rng, rng.randint(0, 1), dom=value.cod)
         head = kit.rand_diagram(rng, rng.randint(0, 1), width=2)
         head = head if head.cod == value.dom else kit.id(value.dom)
         side = kit.rand_diagram(rng, 1, width=1)
+
+        def total_of(items, dom, cod):
+            return a.sum(list(items), dom, cod)
         laws.eq("derived-sum-then", value >> tail,
-                (terms[0] >> tail) + (terms[1] >> tail), how=how)
+                total_of([t >> tail for t in terms], value.dom, tail.cod), how=how)
         laws.eq("derived-sum-then", head >> value,
-                (head >> terms[0]) + (head >> terms[1]), how=how)
+                total_of([head >> t for t in terms], head.dom, value.cod), how=how)
         if len(value.cod) + len(side.cod) <= 7 and len(value.dom) + len(side.dom) <= 7:
             laws.eq("derived-sum-tensor", value @ side,
-                    (terms[0] @ side) + (terms[1] @ side), how=how)
+                    total_of([t @ side for t in terms], value.dom @ side.dom,
+                             value.cod @ side.cod), how=how)
             laws.eq("derived-sum-tensor", side @ value,
-                    (side @ terms[0]) + (side @ terms[1]), how=how)
-        laws.eq("derived-sum-plus", value + value, value.sum(terms + terms), how=how)
+                    total_of([side @ t for t in terms], side.dom @ value.dom,
+                             side.cod @ value.cod), how=how)
+        laws.eq("derived-sum-plus", value + value,
+                total_of(terms + terms, value.dom, value.cod), how=how)
         if has_dagger:
             laws.eq("derived-sum-dagger", value[::-1],
-                    terms[0][::-1] + terms[1][::-1], how=how)
+                    total_of([t[::-1] for t in terms], value.cod, value.dom), how=how)
+    # histories: accumulating with += must not touch the sum it started from
+    # (nor any other name of that object)
+    acc = zero
+    acc += a
+    laws.eq("sum-accumulate", acc, a.sum([a]), how="zero += a")
+    laws.eq("sum-accumulate", zero, a.sum([], a.dom, a.cod),
+            how="the zero that += started from")
+    laws.eq("sum-unit-left", zero + a2, a.sum([a2]), how="after +=")
+    running = sum([total])
+    running += a3
+    laws.eq("sum-accumulate", running, a + a2 + a3, how="sum([total]) += a3")
+    laws.eq("sum-accumulate", total, a.sum([a, a2]),
+            how="the sum that += started from")
     if has_dagger:
         laws.eq("sum-dagger-distributes", total[::-1], a[::-1] + a2[::-1])
         laws.eq("sum-dagger-distributes", zero[::-1], a.sum([], a.cod, a.dom))
